@@ -652,7 +652,7 @@ func checkPackage(compilation *compilation, pkg *ast.Package, path string, impor
 
 	if pkg.Name == "main" {
 		if _, ok := tc.scopes.FilePackage("main"); !ok {
-			return tc.errorf(new(ast.Position), "function main is undeclared in the main package")
+			return tc.errorf(pkg, "function main is undeclared in the main package")
 		}
 	}
 
